@@ -21,11 +21,14 @@ prop("C01", NEC + "Clauses: positions handed to TokenChange queries are absolute
      "nodes are stripped of exactly the message classes table::* produces, on the clone that is handed out "
      "(STRIP-SET) and traverse_mut reaches every AstInfo (TRAVERSE); parser context saved in locals is restored "
      "on every exit (SAVE-RESTORE); equality used for token reuse compares every field (EQ-COMPLETE); relocated "
-     "tokens relocate their errors (TOKEN-ERRORS); the look-ahead table covers every extendable lexeme (T2).",
+     "tokens relocate their errors (TOKEN-ERRORS); the look-ahead table covers every extendable lexeme (T2); per change the "
+     "text is edited, tokens updated against the new text and stored before the AST update (UPDATE-ORDER); the change window "
+     "is computed from head/new/tail lengths (RELEX-WINDOW).",
      [{"rule": "TOKCHANGE-ARGS", "floor": 4}, {"rule": "REBUILD", "floor": 14}, {"rule": "STRIP-SET", "floor": 4},
       {"rule": "SAVE-RESTORE", "floor": 4}, {"rule": "EQ-COMPLETE", "floor": 43},
       {"rule": "TRAVERSE", "filter": tag("traverse"), "floor": 106},
-      {"rule": "TOKEN-ERRORS", "floor": 2}, {"rule": "TABLES", "filter": tag("T2"), "floor": 17}])
+      {"rule": "TOKEN-ERRORS", "floor": 2}, {"rule": "TABLES", "filter": tag("T2"), "floor": 17},
+      {"rule": "UPDATE-ORDER", "floor": 2}, {"rule": "RELEX-WINDOW", "floor": 6}])
 
 prop("C02", NEC + "Clauses: token-range to text-range conversions unwrap first()/last() only in the arm complementary "
      "to `range.is_empty()`; token byte ranges are taken from the consumed input, so they lie on character boundaries "
@@ -34,14 +37,16 @@ prop("C02", NEC + "Clauses: token-range to text-range conversions unwrap first()
      "predefined entries have the empty range); the process is terminated only at the three sanctioned places.",
      [{"rule": "EMPTY-RANGE-GUARD", "floor": 2}, {"rule": "LOOKUP-NOPANIC", "floor": 14},
       {"rule": "ENTRY-GUARD", "floor": 6}, {"rule": "WHO-MAY", "filter": tag("exit"), "floor": 5},
-      {"rule": "TOKEN-RANGE-SOURCE", "floor": 38}, {"rule": "INDEX-ELEM", "floor": 30}])
+      {"rule": "TOKEN-RANGE-SOURCE", "floor": 38}, {"rule": "INDEX-ELEM", "floor": 30},
+      {"rule": "BUILTIN-SET", "floor": 2}])
 
 prop("C03", NEC + "Clauses: each of the 27 build/semantic message kinds has an emitting site under table::* and its own "
      "text (VARIANTS); every error is attached in the reference frame of the node that owns it and is shifted exactly "
      "once per Reference crossed on the way up (FRAME S6/S3/S4/S-shift in error_container.rs, build.rs, semantic.rs, "
      "lib.rs); every ErrorContainer impl descends into every child that can hold an AstInfo (TRAVERSE); type equality "
      "used by the checker compares every field incl. the array creator (EQ-COMPLETE: SPL name equivalence).",
-     [{"rule": "VARIANTS", "floor": 54}, {"rule": "FRAME", "filter": files(*FRONT_FRAME), "floor": 212},
+     [{"rule": "VARIANTS", "floor": 54}, {"rule": "MESSAGE-SITE", "floor": 32},
+      {"rule": "FRAME", "filter": files(*FRONT_FRAME), "floor": 212},
       {"rule": "TRAVERSE", "filter": tag("errors", "analyze", "build"), "floor": 73}, {"rule": "EQ-COMPLETE", "floor": 43}])
 
 prop("C04", NEC + "Clauses: shape of the precedence-climbing parser (levels, loops, operand parsers, else binding) "
@@ -65,9 +70,10 @@ prop("C06", NEC + "Clauses: alt(..) order vs. prefix relation of static lexemes 
 
 prop("C07", NEC + "Clauses: a token relocated to a new range relocates its lexical errors too (TOKEN-ERRORS); the "
      "look-ahead table covers every lexeme that a following character can extend (T2); byte, char and UTF-16 lengths "
-     "are not mixed in the shift arithmetic (LEN-UNITS).",
+     "are not mixed in the shift arithmetic (LEN-UNITS); re-lexed tokens are shifted by the offset the text was cut at and the "
+     "change window is computed from head/new/tail lengths, result = head ++ new ++ tail ++ eof (RELEX-WINDOW).",
      [{"rule": "TOKEN-ERRORS", "floor": 2}, {"rule": "TABLES", "filter": tag("T2"), "floor": 17},
-      {"rule": "LEN-UNITS", "filter": tag("arith"), "floor": 1}])
+      {"rule": "LEN-UNITS", "filter": tag("arith"), "floor": 1}, {"rule": "RELEX-WINDOW", "floor": 6}])
 
 prop("C08", NEC + "Clauses: no content change is discarded, batched changes are converted against the advanced "
      "temporary text and applied to it, LSP columns advance by UTF-16 code units; lengths of different units are not mixed; "
@@ -96,7 +102,7 @@ prop("C12", NEC + "Clauses: an entry's name range is resolved against the token 
      "is_default() never holds for locals (ENTRY-KIND); lookups are never unwrapped (LOOKUP-NOPANIC).",
      [{"rule": "FRAME", "filter": files("goto.rs", "features.rs", "table.rs"), "floor": 16},
       {"rule": "SCOPE-ORDER", "floor": 18}, {"rule": "ENTRY-GUARD", "floor": 6}, {"rule": "ENTRY-KIND", "floor": 4},
-      {"rule": "LOOKUP-NOPANIC", "floor": 14}])
+      {"rule": "LOOKUP-NOPANIC", "floor": 14}, {"rule": "BUILTIN-SET", "floor": 2}])
 
 prop("C13", NEC + "Clauses: the finder walkers descend into every statement/expression/type shape that can contain what "
      "they collect (TRAVERSE); every identifier found is shifted once per Reference crossed (FRAME in references.rs); "
@@ -104,13 +110,15 @@ prop("C13", NEC + "Clauses: the finder walkers descend into every statement/expr
      "(SCOPE-ORDER).",
      [{"rule": "TRAVERSE", "filter": tag("vars", "calls", "types"), "floor": 51},
       {"rule": "FRAME", "filter": files("references.rs"), "floor": 56}, {"rule": "SAME-FINDER", "floor": 3},
-      {"rule": "SCOPE-ORDER", "floor": 18}])
+      {"rule": "SCOPE-ORDER", "floor": 18}, {"rule": "IDENT-RANGE", "floor": 4}])
 
 prop("C14", NEC + "Clauses: the call statement is located with node, origin and token slice in one frame on every step of "
      "the descent (FRAME in signature_help.rs) through every statement shape that can contain a call (TRAVERSE); hover "
-     "resolves local-then-global (SCOPE-ORDER).",
+     "resolves local-then-global (SCOPE-ORDER); signatures read kind, name, ref marker and type (DISPLAY-FIELDS); the hover range "
+     "is the cursor identifier's token range (IDENT-RANGE).",
      [{"rule": "FRAME", "filter": files("signature_help.rs"), "floor": 8},
-      {"rule": "TRAVERSE", "filter": tag("calls"), "floor": 18}, {"rule": "SCOPE-ORDER", "floor": 18}])
+      {"rule": "TRAVERSE", "filter": tag("calls"), "floor": 18}, {"rule": "SCOPE-ORDER", "floor": 18},
+      {"rule": "DISPLAY-FIELDS", "floor": 4}, {"rule": "IDENT-RANGE", "floor": 4}])
 
 prop("C15", NEC + "Clauses: legend order = enum discriminants (T6); token positions of different units/frames are not "
      "compared and declaration slices are cut in the right frame (FRAME in semantic_tokens.rs); token lengths are UTF-16 "
@@ -121,8 +129,10 @@ prop("C15", NEC + "Clauses: legend order = enum discriminants (T6); token positi
       {"rule": "SCOPE-ORDER", "floor": 18}])
 
 prop("C16", NEC + "Clauses: every token slice / node pair that drives the position classification is in one frame (FRAME "
-     "in completion.rs); variables are proposed from the LookupTable of the procedure that contains the cursor (SCOPE-ORDER).",
-     [{"rule": "FRAME", "filter": files("completion.rs"), "floor": 18}, {"rule": "SCOPE-ORDER", "floor": 18}])
+     "in completion.rs); variables are proposed from the LookupTable of the procedure that contains the cursor (SCOPE-ORDER); "
+     "search_* keep exactly the entry kinds they are named after, from the right table (KIND-FILTER).",
+     [{"rule": "FRAME", "filter": files("completion.rs"), "floor": 18}, {"rule": "SCOPE-ORDER", "floor": 18},
+      {"rule": "KIND-FILTER", "floor": 7}])
 
 prop("C17", NEC + "Clause: the procedure's token range is made absolute with the offset of the Reference it was reached "
      "through before the token vector is sliced (FRAME in fold.rs); the lines reported come from as_pos_range of the "
@@ -145,6 +155,6 @@ prop("C19", NEC + "Clauses: decode consumes nothing before its last `Ok(None)`, 
 
 prop("C20", NEC + "Clauses: diagnostics only under `if send_diagnostics`, once per Open/Change; Close removes; "
      "document map keyed by an injective function of the URI; no task spawned per request; every channel send is "
-     "`send(..).await` (no lossy try_send).",
+     "`send(..).await` (no lossy try_send); the broker's flag is the client's publishDiagnostics capability (DIAG-FLAG).",
      [{"rule": "BROKER", "floor": 12}, {"rule": "WHO-MAY", "filter": tag("spawn"), "floor": 1},
-      {"rule": "SEND-AWAIT", "floor": 11}])
+      {"rule": "SEND-AWAIT", "floor": 11}, {"rule": "DIAG-FLAG", "floor": 2}])
